@@ -581,6 +581,8 @@ def udp_table(chk: Check, repo: Repo) -> None:
 
 
 def run(chk: Check, repo: Repo) -> None:
+    from .common_rules import dispatch_iterates_a_snapshot
+    dispatch_iterates_a_snapshot(chk, repo, repo.func("xknx.io.transport.ip_transport", "KNXIPTransport.handle_knxipframe"), "callbacks", "the registered frame callbacks", "snapshot|transport-callbacks")
     def safe(fi: FuncInfo) -> bool:
         return fi.name == "send" and fi.cls is not None and any(c.name == "KNXIPTransport" for c in repo.mro(fi.cls))
 
